@@ -3,6 +3,7 @@ CONSTANTS
   NameMask = 7
   Family = "lemmaq"
   MaxKeys = 2
+  MaxEdits = 1
   Defect = "none"
 INVARIANT OrderInv
 INVARIANT ShapeInv
